@@ -27,7 +27,7 @@ TEXTS["C02"] = {
             "the positive theorem C02_fee_failed_not_listed and its corpus witness is replayed on every run. "
             "History level (C02_history_requests_consecutive): over ANY sequence of IBTPs, the requests of an ordered pair that are accepted carry exactly the indices counter+1, counter+2, ... in order, and the pair's counter ends at counter + their number "
             "(frame lemmas in Proofs/ExecFrame.lean: handling an IBTP of another pair leaves the pair's counter alone). "
-            "Model is run against the real executor+contracts on generated histories; model-free monitor recomputes accepted indices, request AND receipt counters (with their mirrors on the destination) and delivery sets from receipts.",
+            "Model is run against the real executor+contracts on generated histories; model-free monitor recomputes accepted indices, request AND receipt counters (with their mirrors on the destination) and delivery sets from receipts — in worlds with a second registered BitXHub also for pairs across the two hubs (an accepted request that is not the other hub's notice for an accepted one carries the next index and is counted).",
     "note": TB,
     "technique": "Lean 4 theorems over an executable model of the interchain contract + differential correspondence with the real executor",
 }
@@ -41,11 +41,15 @@ TEXTS["C04"] = {
             "moves only along steps of the state machine (C04_history_status_path), hence SUCCESS / FAILURE / ROLLBACK never change again (C04_history_final_stays); the counter hypothesis of both holds for every record the contract creates "
             "(C04_created_record_is_bounded). Block level (through applyTx with its fee step, transfers, contract calls, the timeout bookkeeping and the timeout step): a final record stays as it is over one block and over every history of blocks "
             "(C04_tx_final_stays, C04_block_final_stays, C04_block_history_final_stays) under the hypothesis that the record is not on the timeout list of a height whose timeout step runs (and nobody calls the unguarded "
-            "DeleteInterchain). That hypothesis is now discharged in two steps (Proofs/ExecStepsT.lean, ExecListed.lean): (1) a final record that is on no list of a height still to come stays final AND off those lists over every block and every history of blocks, "
-            "with no assumption about the lists (C04_block_final_stays_unlisted, C04_block_history_final_stays_unlisted: contract code never puts a one-to-one id on a list — relation StepsT, with Go's in-place removal shown to be a sublist —, the bookkeeping adds an id only for a "
-            "request with a successful receipt, and a request naming a finished transaction never gets one); (2) the block in which a receipt for an open transaction of a local pair is accepted takes it off the list its record names and leaves it on none "
-            "(C04_block_finalising_unlists, from the invariant OpenInv: listed at most once and only under the recorded deadline). That OpenInv holds of every open record at every block boundary, and that no block abandons its bookkeeping, is not proved; the model driver evaluates both on "
-            "every generated block (evidence tags model:openinv, model:abort, model:listedfinal; a failing one is reported as a violation) and the monitor on the real node (protocol automaton written from the property text) plus the model correspondence decide whole block histories including timeouts.",
+            "DeleteInterchain). That hypothesis is discharged, and finality is closed from the first block on (Proofs/ExecStepsT.lean, ExecListed.lean): at every block boundary a one-to-one transaction t of a local index-checked pair is "
+            "Tracked — fresh (no record, the pair's counter below its index, on no list still to come), opened (record not final; on the lists still to come at most once and only under its recorded deadline) or final (and on no list still to come) — and every block keeps it so "
+            "(C04_block_tracked: a fresh one stays fresh, is opened by the one request the block accepts for it, or is begun and answered in one block, C04_block_fresh_step; an open one stays open or is timed out to BEGIN_ROLLBACK, C04_block_open_stays, or becomes final and is "
+            "taken off its list in the same block, C04_block_finalising_unlists; a final one stays final and unlisted, C04_block_final_stays_unlisted), hence every history of blocks (C04_history_tracked), hence C04_final_is_forever: on a history that starts on a fresh chain, a status that is final "
+            "after k blocks is the status after all of them — receipts of any kind, replays, other traffic, unpayable fees and the timeout step included. The proofs rest on: contract code never raises the count of a one-to-one id on a timeout list (relation StepsT; Go's in-place slice removal is a "
+            "sublist, goRemove_sublist), the bookkeeping adds an id only for a request with a successful receipt (timeoutAct_add), at most one request naming t is accepted per block and its timeout gives the recorded deadline (FreshPhase / Acc through the generic loop invariant "
+            "applyTxs_zip_fold), a request naming an accepted transaction is refused. Assumed of every block (BlockOk): nobody calls the unguarded DeleteInterchain (open finding of C17), no request naming t carries a Group, the bookkeeping is not abandoned (abort); the model driver evaluates "
+            "openinv / abort / listedfinal on every generated block (evidence tags model:*, a failing one is a violation). The "
+            "monitor on the real node (protocol automaton written from the property text) plus the model correspondence decide whole block histories including timeouts.",
     "note": TB + " Extractor go/extract (go/packages + go/ast) is trusted to copy the literal table.",
     "technique": "Lean 4 table theorems (decide over the extracted FSM, lifted by lemma) + model correspondence + protocol monitor",
 }
@@ -134,7 +138,7 @@ TEXTS["C09"] = {
             "chain meta names t (C09_rollback_clears_above_target, C09_ledger_rollback_clears_above_target; exact characterisation of the loop in Proofs/ChainRollback.lean). By-hash / by-transaction cleaning and tx/receipt lookups are decided by model correspondence on the real "
             "ledger (LevelDB + blockfile) and a model-free monitor that queries every getter for every known height/hash/tx after rollbacks. Two defects found here were repaired by fix: commits (GetBlockHash decoding; "
             "stale block-height entry after rollback).",
-    "note": TB + " Block hashes are symbolic in the model; header hashing and the Merkle roots are covered by C10.",
+    "note": TB + " Block hashes are symbolic in the model; that the stored header's transaction root and receipt root ARE the Merkle roots of the stored transactions and receipts is decided on the real node after every block of the exec engine, by a reference tree written in the harness (refMerkleRoot) over what is read back from the store; the tree function itself is modelled and proved sensitive in C10.",
     "technique": "Lean 4 theorems over the executable chain-store model + differential correspondence + exhaustive getter monitor",
 }
 TEXTS["C11"] = {
@@ -167,7 +171,8 @@ TEXTS["C17"] = {
             "self-or-admin (C17_specific_gate_iff, C17_specific_gate_refuses_outsiders, C17_self_admin_gate_iff) and is tied to contracts.checkPermission by an exhaustive differential run (7650 calls). "
             "On the real node every method is called directly by an outsider, another chain's admin, a governance admin and the super admin with well-typed arguments, audit on/off, bracketed by full state dumps: "
             "internal entries must fail and change nothing, no direct call may rewrite existing interchain counters / transaction records, objects of another chain stay untouched, failed calls change nothing. "
-            "One defect repaired (fix: Stub methods were dispatchable); known findings: InterchainManager.DeleteInterchain/Register and Governance.ZeroPermission have no caller check.",
+            "Two defects repaired (fix: Stub methods were dispatchable; fix 1ae276ee: the contract-to-contract entry interchain.HandleIBTPData had no caller check and let any account move interchain counters and transaction records in worlds with a second BitXHub — table theorem "
+            "C17_ibtp_data_entry_asks_for_its_caller over the regenerated method table); known findings: InterchainManager.DeleteInterchain/Register and Governance.ZeroPermission have no caller check.",
     "note": TB + " The bodies behind the gates (governance managers of bitxhub-core) are not modelled; that the gate's address lists contain only contract addresses is decided dynamically, not proved.",
     "technique": "Lean 4 table theorems (decide +kernel over the regenerated method/guard table) + decision-function theorems + differential correspondence + role x method probing with state dumps",
 }
@@ -192,10 +197,11 @@ TEXTS["C03"] = {
             "foreign balance untouched and is never listed (C03_unverified_ibtp_no_effect, via the journal lemmas of C07); in the block loop a transaction with a non-empty verdict never has a successful receipt "
             "(C03_success_needs_verified_proof). For IBTPs relayed from another BitXHub the threshold loop of verifyMultiSign is modelled and proved: accepted iff more than (n-1)/3 signatures count, a signature counting only when it "
             "recovers to a registered validator not counted before (C03_multisign_ok_iff, C03_bad_signature_never_counts, C03_validator_counted_once, C03_count_le_validators, C03_no_signature_rejected); the model is run against "
-            "the real function with real secp256k1 signatures (exhaustive small + random). On the real node a monitor brackets every unverified IBTP with state dumps and offers the same IBTPs to HandleIBTPData by direct calls. "
-            "One defect repaired (fix: a rule answering plain false crashed the executor).",
+            "the real function with real secp256k1 signatures (exhaustive small + random). On the real node a monitor brackets every unverified IBTP with state dumps and offers IBTPs to the entry points an account can call directly (HandleIBTPData, InterBroker.EmitInterchain with a source id of the caller's choosing) — "
+            "in worlds with a second registered BitXHub also the receipt for a request relayed from it and requests of its services to hub-level services, the two kinds no service look-up stands in the way of. "
+            "Two defects repaired (fix: a rule answering plain false crashed the executor; fix 1ae276ee: HandleIBTPData processed such IBTPs for any account, no proof checked — it now takes only the inter-broker contract's requests of this hub's own services).",
     "note": TB + " PARTIAL: the rule engine's answer is a parameter (HappyRule / SimFabric rule of the harness world; plain false injected at the proof.Verify boundary); rule changes go through real governance (UpdateMasterRule proposed, approved / rejected, the monitor follows GetMasterRule); real wasm rules are not exercised; "
-            "HandleIBTPData is refused today only because the registry's contract instance has a nil service cache (observed, not proved).",
+            "Since fix 1ae276ee HandleIBTPData checks its caller and the IBTP's source; for IBTPs with a local appchain source it was refused before only because the registry's contract instance has a nil service cache.",
     "technique": "Lean 4 theorems (verdict characterisation, no-effect via journal faithfulness, threshold loop invariant) + differential correspondence (executor; verifyMultiSign with real signatures) + state-dump monitor",
 }
 
